@@ -208,8 +208,12 @@ def rankOKAt (g : TyGraph) (rk : Nat → Nat) (t : Nat) : Bool :=
 def stdlibClosedAt (g : TyGraph) (t : Nat) : Bool :=
   !g.stdlib t || (g.kids t).all (fun vc => g.stdlib vc.2)
 
+def subKids (g : TyGraph) (a b : Nat) : Bool := (g.kidTys a).all (fun c => (g.kidTys b).contains c)
+
+/-- `unwrap` is idempotent and a type has the member types of its unwrapped type (as sets: `unwrap` is
+    memoised on `==`, and equal unions may list their members in different orders). -/
 def unwOKAt (g : TyGraph) (t : Nat) : Bool :=
-  g.kidTys (g.unw t) == g.kidTys t && g.unw (g.unw t) == g.unw t
+  subKids g (g.unw t) t && subKids g t (g.unw t) && g.unw (g.unw t) == g.unw t
 
 /-- Every cycle of the member relation passes through a named non-stdlib type (certified by `rank`),
     members of stdlib types are stdlib types, `unwrap` is idempotent and members are those of the unwrapped type. -/
